@@ -14,7 +14,12 @@ def main():
     here = os.path.dirname(os.path.abspath(__file__))
     ev_path = os.path.join(here, "evidence", prop + ".json")
     patches = [("seed", p) for p in sorted(glob.glob(os.path.join(here, "seeded", prop + "-*", "patch.diff")))]
-    patches += [("refactor", p) for p in sorted(glob.glob(os.path.join(here, "refactors", "*", "patch.diff")))]
+    refs = sorted(glob.glob(os.path.join(here, "refactors", "*", "patch.diff")))
+    # a rotating third of the refactoring corpus per property keeps the thorough tier short; reftest.sh runs all of them
+    k = int(prop[1:]) % 3 if os.environ.get("VERIF_SELFVAL_ALL") is None else None
+    if k is not None:
+        refs = [p for i, p in enumerate(refs) if i % 3 == k]
+    patches += [("refactor", p) for p in refs]
     res = {"seeds": {}, "refactors": {}}
 
     def one(item):
